@@ -67,6 +67,8 @@ type harvest struct {
 	byAddr map[string][]*protobufcompiled.Gossiper
 }
 
+func newHarvest() *harvest { return &harvest{byAddr: map[string][]*protobufcompiled.Gossiper{}} }
+
 // runGossip plays one item through the network. choose(step, avail) picks the next in-flight message.
 // Returns violation, the choices taken and the number of alternatives at each step.
 func (n *vnet) runGossip(c c11Case, choose func(step, avail int) int, forge func(label string, k int) int, hv *harvest) (sig, msg string, taken, avail []int, inconclusive string) {
